@@ -12,6 +12,10 @@ import (
 // all symbols have been substituted.
 const maxExpressionTokens = 4096
 
+// maxExpressionLength bounds the length of the text of an expression that is
+// evaluated.
+const maxExpressionLength = 16 * maxExpressionTokens
+
 func ExpandAndEvaluate(expr []token, symbols map[string][]token) (int, error) {
 	return expandAndEvaluate(expr, symbols, make(map[string][]token))
 }
@@ -212,10 +216,17 @@ func flipDoubleNegatives(expr []token) []token {
 }
 
 func evaluateExpression(expr []token) (int, error) {
+	length := 0
 	for _, tok := range expr {
 		if tok.typ == tokText || !tok.IsExpressionTerm() {
 			return 0, fmt.Errorf("unexpected token in expression: '%s'", tok)
 		}
+		length += len(tok.val)
+	}
+	// the number of tokens is bounded, their length is not: a number of
+	// many thousands of digits named many times is a text of gigabytes
+	if length > maxExpressionLength {
+		return 0, fmt.Errorf("expression is longer than %d characters", maxExpressionLength)
 	}
 
 	combinedExpr := combineSigns(expr)
